@@ -88,6 +88,7 @@ func (e *Eng) obligations() {
 	// ---- C09: ParseNDStream result plumbing
 	e.ndstream()
 	e.ndstreamChunks()
+	e.ndstreamMore()
 	e.automaton()
 	e.codec()
 	e.codecConfig()
@@ -259,7 +260,7 @@ func (e *Eng) poolDiscipline() {
 // ndstream: structure of ParseNDStream's goroutines (C09)
 func (e *Eng) ndstream() {
 	props := []string{"C09"}
-	worker := e.fn("ParseNDStream$4$1")
+	worker := e.ndRole("worker")
 	e.exactlyOncePerPath(worker, "worker#one-result", props, isSend(), "each worker sends exactly one value on its result channel")
 	// the worker forces copyStrings before parsing
 	if worker != nil {
@@ -292,7 +293,7 @@ func (e *Eng) ndstream() {
 			return tp.Field(fa.Field).Name() == "copyStrings"
 		}, isCall("(*internalParsedJson).parseMessage"), "copyStrings is set before parseMessage runs")
 	}
-	reader := e.fn("ParseNDStream$4")
+	reader := e.ndRole("reader")
 	if reader != nil {
 		// every return of the reader goroutine is preceded by queueError, and close(queue) is deferred
 		e.mustPrecede(reader, "reader#error-on-every-exit", props, isCall("queueError"), isReturn(), "queueError before every return of the reader loop")
@@ -300,7 +301,7 @@ func (e *Eng) ndstream() {
 		// a result channel is queued before its worker starts
 		e.mustPrecede(reader, "reader#queue-before-worker", props, isSend(), isGo(), "result channel is enqueued (in order) before the worker goroutine starts")
 	}
-	fwd := e.fn("ParseNDStream$3")
+	fwd := e.ndRole("forwarder")
 	if fwd != nil {
 		e.mustPrecede(fwd, "forwarder#close-deferred", props, isDefer("close"), or(isSend(), isReturn()), "close(res) deferred before forwarding starts")
 	}
@@ -331,7 +332,7 @@ func (e *Eng) messageReaders() {
 		"(*Iter).Object":                                    "copies the slice header only",
 		"(*Iter).Array":                                     "copies the slice header only",
 		"(*Object).NextElementBytes":                        "copies the ParsedJson header (dst.tape = o.tape)",
-		"ParseNDStream$4$1":                                 "recycles the reuse buffer before parsing",
+		"ParseNDStream.worker":                              "recycles the reuse buffer before parsing",
 		"(*Array).Iter":                                     "copies the ParsedJson header",
 		"(*ParsedJson).Iter":                                "copies the ParsedJson header",
 		"(*ParsedJson).ForEach":                             "copies the ParsedJson header",
@@ -381,7 +382,11 @@ func (e *Eng) messageReaders() {
 					continue
 				}
 				n++
-				if _, ok := allowed[funcKey(fn)]; !ok {
+				fk := funcKey(fn)
+				if w := e.ndRoleQuiet("worker"); w != nil && w == fn {
+					fk = "ParseNDStream.worker"
+				}
+				if _, ok := allowed[fk]; !ok {
 					bad = append(bad, funcKey(fn)+" at "+e.pos(in))
 				}
 			}
